@@ -13,6 +13,7 @@ def run(ver):
     core.replay_cases(ver, binp, res["out_path"], wd, "mc_c05")
     # I->S
     core.validate_traces(ver, binp, "c05", "Trace_C05", wd)
+    core.table_sweep(ver, binp, wd, {"read"})
     core.run_extras(ver, binp, wd)
     ver.assumptions += ["TLC evaluates the TLA+ operators correctly",
                         "the harness projection (abs.rs) of Rust integers to (neg, magnitude) byte tuples is faithful",
